@@ -38,12 +38,60 @@ def cq_nodes(ns):
     return cq_list([f"({n['id']}, {cq_nats(n['deps'])})" for n in ns])
 
 
+class Selection:
+    """C13's selection half: which buildpacks `cargo libcnb package` selects from the invocation directory and in which
+    closure it packages them -- composite-only workspaces (nothing to compile) with nested buildpack directories, run
+    through the real cargo-libcnb and judged by C15's verified oracle (selected_exact)."""
+    id = "C13SEL"
+    decides_property = True
+    hold_mod = "C15Hold"
+    agree_mod = "C15Agree"
+    per_shard = 20
+    rule = ("composite-only workspaces: 3..5 composite buildpacks, some nested inside another buildpack's directory "
+            "(outer/tests/fixtures/inner), libcnb: dependencies forming a DAG, invoked from the workspace root, from an outer "
+            "buildpack, from a nested buildpack and from a leaf; observed: packaged directories and stdout")
+
+    def __init__(self):
+        from props.c15 import PROP as C15P
+        self.c15 = C15P
+        self.extra_imports = C15P.extra_imports
+        self.scope = getattr(C15P, "scope", "N_scope")
+
+    def gen(self, rng, tier):
+        cases = []
+        for _ in range(12 if tier == "thorough" else 6):
+            n = rng.randint(3, 5)
+            dirs = ["outer", "outer/tests/fixtures/inner", "bps/dep-a", "bps/dep-b", "bps/dep-a/vendored/deep"][:n]
+            rng.shuffle(dirs)
+            comps = []
+            for k, d in enumerate(dirs):
+                deps = [["lib", comps[j]["id"]] for j in range(k) if rng.random() < 0.5]
+                if rng.random() < 0.4:
+                    deps.append(["uri", "docker://reg/img:1"])
+                comps.append({"dir": d, "id": "sel/" + d.split("/")[-1] + str(k), "deps": deps, "uri": ".", "os": None})
+            cwd = rng.choice([""] + dirs + dirs)
+            cases.append({"libs": [], "comps": comps, "foreign": [], "cwd": cwd, "release": False, "pkgdir": "default",
+                          "seed_ids": [], "seed_kind": 0})
+        return cases
+
+    def run_impl(self, cases, workdir):
+        return self.c15.run_impl(cases, workdir)
+
+    def to_coq(self, c, o):
+        return self.c15.to_coq(c, o)
+
+    def distribution(self, cases, obs):
+        return {"cwd": sorted({c["cwd"] for c in cases})}
+
+
 class C13:
     id = "C13"
     stream = "c13"
+    extra_streams = [Selection()]
     scope = "nat_scope"
-    translator_prefixes = ["dependency_graph.rs"]
-    coq_targets = ["theories/Checks/C13Hold.vo", "theories/Checks/C13Agree.vo", "theories/Props/C13.vo"]
+    translator_prefixes = ["dependency_graph.rs", "command.rs"]
+    coq_targets = ["theories/Checks/C13Hold.vo", "theories/Checks/C13Agree.vo", "theories/Props/C13.vo",
+                   "theories/Checks/C15Hold.vo", "theories/Checks/C15Agree.vo"]
     hold_target = "theories/Checks/C13Hold.vo"
     agree_target = "theories/Checks/C13Agree.vo"
     hold_mod = "C13Hold"
